@@ -242,5 +242,19 @@ def run_unit(ctx, u):
             continue
         ok = one.numel() == bat.numel() and bool(torch.allclose(one.reshape(-1).double(), bat.reshape(-1).double(), rtol=1e-5, atol=1e-6))
         ctx.check(ok, "soft:1-D call = batched call", f"{kc}|layout|soft:1-D call = batched call|differs", spec=s, one_d=one.reshape(-1)[:8], batched=bat.reshape(-1)[:8], shapes=[list(one.shape), list(bat.shape)])
+    # ---- the same values as a non-contiguous (transposed) view: hard and soft outputs equal those of the contiguous tensor
+    mat = seq.reshape(4, 6).contiguous()
+    view = mat.t().contiguous().t()
+    for nv in (None, 0.3):
+        ctx.case("layout-view", modems.cfg(s), nv)
+        try:
+            o_c = call(mat, nv)
+            o_v = call(view, nv)
+        except Exception:  # noqa: BLE001
+            ctx.skip("(B,N) layout rejected")
+            continue
+        ok = tuple(o_c.shape) == tuple(o_v.shape) and bool(torch.allclose(o_c.double(), o_v.double(), rtol=1e-5, atol=1e-6))
+        clause = "hard:nearest point" if nv is None else "soft:1-D call = batched call"
+        ctx.check(ok, clause, f"{kc}|layout|{clause}|a transposed view of the same values is demodulated differently", spec=s, contiguous=o_c.reshape(-1)[:8], view=o_v.reshape(-1)[:8])
     if s["id"] % 15 == 0:
         ctx.sample({"scheme": modems.cfg(s), "views": [v[0] for v in views], "points": int(len(pts)), "noise_vars": [1e-3, 1.0, 1e3]})
